@@ -376,6 +376,13 @@ def wSkipShadow : Input :=
     dest := .field { name := "Name", ty := .basic "int" } .nil }
 theorem C05_F_skipShadow_witness : region05 wSkipShadow = "F_skipShadow" ∧ obs05 wSkipShadow ≠ spec05 wSkipShadow := by decide
 
+/-- `map:"-"` on an EMBEDDED struct is not read: `Account{ *Secret \`map:"-"\`; Name }`, Secret{Token} — Token is copied -/
+def wEmbedSkip : Input :=
+  { src := .embed "Secret" true (.field { name := "Token", ty := .basic "string" } .nil) (.field { name := "Name", ty := .basic "string" } .nil),
+    dest := .field { name := "Token", ty := .basic "string" } (.field { name := "Name", ty := .basic "string" } .nil),
+    srcSkipEmbeds := [["Secret"]] }
+theorem C05_F_embedSkip_witness : region05 wEmbedSkip = "F_embedSkip" ∧ obs05 wEmbedSkip ≠ spec05 wEmbedSkip := by decide
+
 /-- a pointer conversion compiles: `(*dest.Kind)(x)` (was F_ptrConv: printed as `*dest.Kind(x)`) -/
 def wPtrConv : Input :=
   let a := Ty.ptr (.basic "int")
